@@ -19,13 +19,11 @@ CLAIMS = {
          "the pre-fix code is kept in the model under fx=false with its exact guard and refutation witnesses); model tied to the code by differential correspondence through the real handlers on every run.",
     design="5/C02", technique="Coq proof (induction over code points and over notification histories; byte sweeps by vm_compute) + extracted-model correspondence through the real LSP handlers"),
  "C03": dict(
-    text="Coq theorems: numerals - the model of parser_number.go accepts exactly the numerals of the Lua 5.3/5.4 + LuaJIT grammar (C03_number_ok_iff, value exactness, Integer/Float node iff, no fault), keyword table distinct (tied to the generated token table). "
-         "Token-level parser: totality/no-fault (C01) and the model parser is run against the real parser on every case (AST incl. every Loc, error list) together with an independent reference recogniser of the manual's grammar; the grammar completeness/soundness theorems for the full parser are work in progress (coq/WIP, not claimed). Known deviations (bad escapes accepted etc.) are listed findings.",
-    design="5/C03", technique="Coq proof (numeral grammar iff, induction over digit strings) + extracted-model correspondence (model parser = Go parser = reference recogniser on generated programs and mutants)"),
+    text="Coq theorems, all inputs: the model parser accepts EXACTLY the manual's Lua 5.3/5.4 grammar at token level, in both directions and with the pipeline's own fuel: C03_parse_complete(_bytes) (every Chunk parses without parse error), C03_parse_sound(_bytes) (no parse error => Chunk; plain Chunk since the fix: commit that rejects `(a) = 1`), C03_parse_iff, and the guard-free diagnostics-level statement C03_flagged_iff: a file is NOT flagged iff its token list is a Chunk and carries no lexical error (caveat: 31 or more lexical errors give the too-many-errors result). Numerals: accepted iff Numeral of the Lua + LuaJIT grammar, values exact, Integer/Float node iff, no fault; keyword table tied to the generated token table. Model tied to the code on every run: model parser = Go parser (AST with every Loc, error list) = independent reference recogniser on generated programs and grammar-aware mutants; lexical deviations (bad escapes accepted) are listed findings; lexical grammar of strings/comments is covered by correspondence only.",
+    design='5/C03, 11', technique='Coq proof (mutual rule induction for completeness, fuel induction with error-count chaining for soundness; numeral grammar iff) + extracted-model correspondence (model parser = Go parser = reference recogniser)'),
  "C04": dict(
-    text="Coq theorem C04_tok_range_exact: for every valid-UTF-8 file in the guarded class (no backslash, long-bracket opener, astral/2-byte character, LF-CR pair, BOM) that lexes without lexical error, every token's reported range lies in the document, has start<=end and covers exactly the token text under the LSP reading (UTF-16 columns, LF/CRLF/CR); each excluded class is refuted with a vm_compute witness and listed as a finding. "
-         "Model lexer tied to the Go lexer by correspondence (every token Loc, cross-read by an independent Python slicer). Partial: AST Locs and handler-composed ranges are covered by correspondence legs of C03/C05/C06/C19, not by this theorem.",
-    design="5/C04", technique="Coq proof (induction over the scan with a position invariant; UTF-8/UTF-16 lemmas) + extracted-model correspondence on token ranges"),
+    text="Coq theorems: C04_tok_range_exact (every token of an error-free valid-UTF-8 file in the guarded class is reported with a range inside the document, start<=end, covering exactly the token text under the LSP reading); C04_name_is_token + C04_name_range_exact (every name-bearing AST node - NameExp, local names, parameters, loop variables, local function names - carries the Loc of an identifier token with that text, hence an exact range: what definition / references / rename / symbols forward); C04_ast_locs_within/ordered_partial (every AST Loc lies between the first and last token with start<=end, relative to a boolean order guard on the token list). The planned 'every Loc spans its subtree' is REFUTED for the parser as it is (C04_ast_loc_wf_refuted: the call Loc of `a.b(c)` in expression position starts at the last callee token; empty-block Locs are inverted); 5 file classes refuted with witnesses (escapes, long brackets, astral, LF-CR, BOM) and listed as findings. Model lexer/parser tied to the Go code by correspondence on every token Loc and every named AST Loc, cross-read by an independent Python slicer.",
+    design='5/C04, 11', technique='Coq proof (scan invariant with UTF-8/UTF-16 lemmas; parser stream invariant over the Hoare-style monad) + extracted-model correspondence on token and name ranges'),
  "C05": dict(
     text="Coq theorem C05_define_local_partial, for ALL programs of the fragment: with the Laid2 layout (Locs are token spans incl. empty if-branches; no function in a numeric-for step = class B5) and no re-pointing assignment (no_repoint = class B4), go-to-definition at EVERY cursor column of every occurrence that Lua binds to a local and that carries no class tag (B1-B3, per occurrence) returns exactly Lua's declaration; intermediate theorems: the scope tree of the analysis is the syntactic skeleton (C05_scope_tree_is_skeleton), FindMinScope's chain contains every binder-visible declaration (C05_chain_covers_binder_env). "
          "The full statement and the originally planned guard are refuted (6 class witnesses from source bytes; Laid alone is too weak for hand-built ASTs), non-vacuity examples (33 and 43 occurrences; the evidence reports which share of generated programs satisfies the guards). Model = code and the global part are decided by correspondence over every identifier cursor of generated workspaces through the real server. Partial: B4/B5 are excluded program-wide, globals by correspondence.",
@@ -37,12 +35,11 @@ CLAIMS = {
     text="Executable Coq models of the usage marking / unused sweep / undefined-global lookup (Model/Usage.v) and of the reference (Spec/LuaUsage.v); refutation theorems with witnesses (multi-local order, position filter after a long comment, later-defined-elsewhere) and a guard example; correspondence of type 2/3/4 diagnostics of the real analysis vs model vs reference on generated workspaces. Partial: the guarded iff theorems (C07_undefined_iff / C07_unused_iff of DESIGN) are not yet proved.",
     design="5/binder", technique="Coq model + reference, refutation theorems by vm_compute; differential correspondence of published diagnostics"),
  "C08": dict(
-    text="Coq theorems over ALL event histories of the diagnostics state machine (open/change/save/close/watched create-change-delete): the client view always equals live-or-shown-saved (C08_view_tracks_maps, invariant by induction), and under the stated guard incremental = fresh start (C08_incremental_eq_fresh, C08_unsaved_view); analysis results are Section variables. Repaired defects are regression theorems; remaining refuted classes are listed findings. "
-         "Model tied to the real server (channel.Direct, raw JSON, one process per history) by correspondence after every event and against a fresh server.",
-    design="5/C08", technique="Coq proof (invariant by induction over event histories, refinement to fresh start) + extracted-model correspondence against the real server and a fresh server"),
+    text='Coq theorem C08_full_proved / C08_full_every_file: for EVERY conformant event history (open/change/save/close/watched create-change-delete, files inside and outside the workspace) of the repaired diagnostics state machine, whenever no document has unsaved edits the client view equals that of a fresh start (with the open outside documents re-opened), and a buffer with unsaved edits shows its syntax errors if any, else its saved non-syntax diagnostics - no guard and no refuted class left (7 fix: commits; every former witness is a before/after regression theorem); view invariant, index refinement for all histories. Analysis results are Section variables (their determinism is C09). Model tied to the real server (channel.Direct, raw JSON, one process per history) by correspondence after every event and against a fresh server.',
+    design='5/C08, 11', technique='Coq proof (invariant by induction over event histories, refinement to fresh start) + extracted-model correspondence against the real server and a fresh server'),
  "C09": dict(
-    text="Coq theorems: the global merge is permutation-invariant exactly when the minimal definition is unique (C09_merge_perm*, winner = a minimal element, every minimal element reachable), best-match module choice is permutation-invariant under a unique maximal score (C09_best_match_unique), arrival order of per-file results and the SET of a scope's diagnostics are order-free; refutations with witnesses for ties. Correspondence: exported merge/best-match functions called in explicit orders, whole-server repetitions (set-valued observables, impl subset of model).",
-    design="5/C09", technique="Coq proof (Permutation induction, minimality) + extracted-model correspondence with set-valued observables + repeated fresh-server runs"),
+    text="Coq theorems for the repaired code (fix: 2030ecc, files visited in name order, score ties broken by path): C09_merge_perm_full / C09_merge_perm_table (for every permutation of the file list the workspace global table is the same) and C09_best_match_perm_full (for every permutation of the candidates the chosen module file is the same) - no uniqueness guard; the repair keeps the preference rules (C09_merge_fixed_least/minimal, C09_best_match_fixed_argmax); arrival order of per-file results and the SET of a scope's diagnostics are order-free; the pre-fix variants stay refuted with witnesses. Correspondence: exported merge/best-match functions called in explicit orders, whole-server repetitions incl. a real-server repetition leg: observables must be SINGLETONS over repetitions. Partial: three further order-dependent choices (same ---@class in two files; workspace/symbol and references cut beyond their caps) are open findings with proposed diffs, reproduced by the repetition leg, not modelled.",
+    design='5/C09, 11', technique='Coq proof (Permutation induction, sorted visit order, minimality) + extracted-model correspondence + repeated fresh-server runs demanding singleton observables'),
  "C10": dict(
     text="Coq theorems about a labelled transition system of the jrpc2 dispatcher (queue, concurrency 4, notification barrier, one mutex): lock discipline implies mutual exclusion and race freedom for all reachable states, no deadlock, serialisability for handlers with one critical section; the handler table is REGENERATED from the Go source by the translator on every run and C10_handlers_locked / C10_only_known_split / C10_background_unlocked are re-proved by vm_compute over it; since the fix: commits 1b70b29 and 4ebf311 all three exception lists are empty and C10_real_race_free (no reachable state of the real handler table has a data race on the modelled state) holds. "
          "Correspondence/search: real server built with -race flooded with overlapping schedules derived from model runs. Partial: locks below the request mutex and the callee-effect table are trusted.",
@@ -67,18 +64,18 @@ CLAIMS = {
     text="Coq theorems: parse(show t) = t for every documented type of unbounded depth and every documented statement form (C16_type_roundtrip, C16_stat_roundtrip*), trailing comment kept, a malformed line affects only itself (C16_line_isolation, C16_isolation_general), parser total; nested arrays T[][].. of any depth, enum comments, Lines/Stats alignment and parentheses under [] are proved for the repaired code (4 fix: commits); the implementation's own printer round-trips on the guarded fragment with refutations for fun and const. Correspondence: ParseCommentFragment / TypeConvertStr on grammar derivations and corruptions.",
     design="5/C16", technique="Coq proof (induction on type size with positional claims; Hoare-style totality) + extracted-model correspondence"),
  "C17": dict(
-    text="Coq theorems: flag lists of initialize and changeConfiguration are equal and flag i <-> type i (over translator-generated tables), the filter law shown(cfg) = filter (not excluded cfg) shown(all_on) under the special-gate guard for all configurations (2^25 by theorem), same result by all three routes, init faults iff a pattern is bad (repaired: never); refutations (five-flag gate, coupled types, dead flag, duplicate file rule) listed. Correspondence: real server under generated configurations vs filtered all-on run.",
-    design="5/C17", technique="Coq proof (filter law for all configurations; ties to generated tables by vm_compute) + extracted-model correspondence through the real server"),
+    text='Coq theorems: C17_full (for every configuration, by every route - client options, later settings change, luahelper.json - the diagnostics shown are exactly those of the all-enabled run that the configuration does not exclude) and C17_filter_law without guard, for the repaired code (6 fix: commits), plus C17_code_is_deployed_variant: the translator derives from the Go sources on every run that /repo IS that variant (gate list, flag loop, map allocations, regexp.Compile); flag lists of initialize and changeConfiguration equal and flag i <-> type i over generated tables; the repaired code never faults on any settings. Every former refutation is a before/after regression theorem. Correspondence: real server under generated configurations (all single toggles, random subsets, gate boundary, ignore rules literal/regex, three routes) vs filtered all-on run.',
+    design='5/C17, 11', technique='Coq proof (filter law for all configurations; ties to translator-generated tables by vm_compute) + extracted-model correspondence through the real server'),
  "C18": dict(
-    text="Coq theorems: the file index after any insert/remove history equals the index of the surviving files (C18_index_refines_fixed, for the repaired RemoveOneFile), module resolution conforms to the documented mapping on the guarded class, type-6 iff no matching file, the three features agree under a unique best match, answers react to create/delete; refutations (dotted path cut, dofile without suffix, created file not re-analysed, ./ prefix) listed. Correspondence: directory trees and event histories through the real server and the exported index functions.",
-    design="5/C18", technique="Coq proof (refinement of the index to a set of files by induction over histories; string lemmas) + extracted-model correspondence"),
+    text='Coq theorems: the file index after any insert/remove history equals the index of the surviving files (C18_index_refines_fixed), module resolution conforms to the documented mapping on the guarded class, type-6 iff no matching file, the three features agree, answers react to create/delete; since the deterministic-order repair the resolution is single-valued for all histories (C18_resolution_single_fixed, C18_no_ambiguity_fixed); refutations (dotted path cut, dofile without suffix, created file not re-analysed, ./ prefix) listed as findings. Correspondence: directory trees and event histories through the real server and the exported index functions.',
+    design='5/C18, 11', technique='Coq proof (refinement of the index to a set of files by induction over histories; string lemmas) + extracted-model correspondence'),
  "C19": dict(
     text="Coq theorems for ALL files (no fragment restriction; outline_of_bytes = parse, analyse, merge, FindAllSymbol of the repaired code): every entry and child has a well-formed range when the AST Locs are (C19_range_well_formed); every non-function entry contains its declaring identifier and starts at it, children of an entry end inside it (C19_range_contains_decl_partial, C19_children_inside_partial - no hypothesis); completeness: the last declaration of every top-level local, every lexically global assignment target (C19_outline_globals_lexical, Lua scoping) and every function statement has an entry at its declaring identifier (C19_outline_complete_partial); a workspace-symbol candidate exists for every such global (C19_workspace_candidate_partial). "
          "Full statements are stated and refuted with witnesses where the code deviates (function-valued assignment range, shadowed top-level local, member defined before its global). Correspondence: documentSymbol / workspace symbol of the real server vs model vs reference declaration list; the fuzzy matcher / sort / truncation of workspace/symbol is covered by correspondence only.",
     design="5/C19, 11", technique="Coq proof (nested induction over the analysis with frame signatures; flat Loc invariants) + refutation witnesses + differential correspondence of documentSymbol / workspace symbol"),
  "C20": dict(
-    text="Coq theorems, one per check: reported(type) <-> documented pattern at exactly that node (C20_t21/t15/t16/t13/t7/t8/t20/t5/t14/t19 iff, exact or under a stated guard with non-vacuity examples), the published reports are exactly the checks of visited nodes, each once (C20_once), visited = all nodes under the stated guard; CompExp = structural equality modulo Locs without constructors; 13 refutation witnesses computed from source text, listed as findings; C20_full_refuted. Correspondence: type 5/7/8/13/14/15/16/19/20/21 diagnostics of the real analysis on generated programs.",
-    design="5/C20", technique="Coq proof (per-check iff by induction over the AST, NoDup of reports) + refutation witnesses + extracted-model correspondence"),
+    text="Coq theorems, one per check, for the repaired code (6 fix: commits; the model is parameterised by fix flags and `deployed` is what /repo runs): reported(type) <-> documented pattern at exactly that node without guard for 5, 15, 16, 19, 20, 21, 13, 7, 8 and soundness + named-operand completeness for 14 (C20_*_fixed / *_deployed); the published reports are exactly the checks of visited nodes, each once; executable spec = declarative patterns; whole file: C20_full_deployed_guarded (reports = demanded places for every file passing the boolean file guard). Remaining deviations are refuted with witnesses and listed (identical unnamed operands such as 1 == 1, surplus local values never visited, Loc collisions from the lexer's column defects); 12 before/after regression examples. Correspondence: type 5/7/8/13/14/15/16/19/20/21 diagnostics of the real analysis on generated programs with planted instances and near-misses.",
+    design='5/C20, 11', technique='Coq proof (per-check iff by induction over the AST, NoDup of reports, whole-file composition) + refutation witnesses + extracted-model correspondence'),
 }
 NOT_YET = "check not built yet in this round (planned, see DESIGN.md 5); not a claim that the technique cannot apply"
 
